@@ -24,6 +24,7 @@ type Packet struct {
 	PNLen    int             `json:"pnlen,omitempty"`
 	KeyPhase bool            `json:"kp,omitempty"`
 	KeyGen   int             `json:"keygen,omitempty"` // 1-RTT key generation the packet opened with
+	Conn     int             `json:"conn,omitempty"`   // 1-RTT: index of the connection (TLS key log entry) whose keys opened the packet
 	Len      int             `json:"len"`
 	Frames   []refwire.Frame `json:"-"`
 	Names    []string        `json:"frames,omitempty"`
@@ -312,6 +313,7 @@ func (o *Observer) decodeShort(dir Dir, pkt []byte) *Packet {
 				a.largest = int64(pn)
 			}
 			p.PN, p.PNLen = pn, pnLen
+			p.Conn = ci
 			p.KeyPhase = hdr[0]&0x04 != 0
 			fs, ferr := refwire.ParseFrames(payload)
 			if ferr != nil {
